@@ -174,13 +174,12 @@ var (
 
 // the parameter tuples, return types and block types every Callable of the bounded-exhaustive family is built from
 func callableParts() (pars, rets, blks []*XSpec) {
-	pars = []*XSpec{nil, xtupSz(0, 0), xtup(xStr), xtup(xInt), xtup(xStr, xInt), xtupSz(1, 2, xStr), xtupSz(0, lat.Max, xAny), xtup(xI05)}
-	rets = []*XSpec{nil, xAny, xInt, xStr, xOptI, xI05}
+	pars = []*XSpec{nil, xtupSz(0, 0), xtup(xStr), xtup(xStr, xInt), xtupSz(1, 2, xStr), xtupSz(0, lat.Max, xAny), xtup(xI05)}
+	rets = []*XSpec{nil, xAny, xInt, xStr, xOptI}
 	bare := xcallable(nil, nil, nil)
 	cI := xcallable(xtup(xInt), nil, nil)
 	cS := xcallable(xtup(xStr), nil, nil)
-	blks = []*XSpec{nil, bare, cI, xw("Optional", cI), cS, xw("Optional", bare),
-		xcallable(xtup(xInt), xStr, cS)}
+	blks = []*XSpec{nil, bare, cI, xw("Optional", cI), cS, xcallable(xtup(xInt), xStr, cS)}
 	return
 }
 
@@ -191,8 +190,6 @@ func keyCallables() []*XSpec {
 		xcallable(nil, nil, nil),
 		xcallable(xtup(xStr), nil, nil),
 		xcallable(xtup(xStr), xInt, nil),
-		xcallable(xtup(xStr), xAny, nil),
-		xcallable(xtup(xStr), xStr, nil),
 		xcallable(xtupSz(0, 0), xInt, nil),
 		xcallable(xtup(xStr), nil, cI),
 		xcallable(xtup(xStr), xInt, xw("Optional", cI)),
@@ -259,7 +256,7 @@ func extPool(rng *lib.Rng, nRandom int) []*XSpec {
 		{"MyData", xl(lat.A("Data"))},
 	} {
 		al := xalias(a.n, a.t)
-		out = append(out, al, xw("Optional", al), xarr(al), xw("Variant", al, xStr), xstruct("f", 0, al), xtup(al), xalias("Outer"+a.n, al))
+		out = append(out, al, xw("Optional", al), xarr(al), xw("Variant", al, xStr), xstruct("f", 0, al), xalias("Outer"+a.n, al))
 	}
 	// the remaining type kinds, through their constructors or the type parser
 	out = append(out, xw("Iterator"), xw("Iterator", xInt), xw("Iterator", xStr), xw("Iterable"), xw("Iterable", xInt),
@@ -564,7 +561,7 @@ func describeTyped(e, a px.Type) (o typedObs) {
 }
 
 func newCallableCases() *lib.CasesFile {
-	return &lib.CasesFile{Imports: imports, Typ: "callable_case", Obligations: map[string]string{"callable_model": "callable_mismatches orc cases"}}
+	return &lib.CasesFile{Imports: append(append([]string{}, imports...), "Model.DescribeCallable"), Typ: "callable_case", Obligations: map[string]string{"callable_model": "callable_mismatches orc cases"}}
 }
 
 // addCallableCase emits (name, expected Callable, actual, IsAssignable, typed description, text returned, AssertType)
@@ -613,7 +610,7 @@ func xInput(kind string, a, b *XSpec) map[string]interface{} {
 }
 
 func runExt(cfg *lib.Config, res *lib.Result, rng *lib.Rng, u *lat.Universe) {
-	nRandom, coqCallable := 120, 900
+	nRandom, coqCallable := 60, 900
 	if cfg.Thorough() {
 		nRandom, coqCallable = 600, 6000
 	}
@@ -624,7 +621,7 @@ func runExt(cfg *lib.Config, res *lib.Result, rng *lib.Rng, u *lat.Universe) {
 	// the lattice side: the atoms and every fifth of the rest, as recipes of kind L
 	var base []int
 	for i := range u.L {
-		if i < 70 || i%5 == 0 {
+		if i < 50 || i%10 == 0 {
 			base = append(base, i)
 		}
 	}
@@ -784,7 +781,7 @@ func runExt(cfg *lib.Config, res *lib.Result, rng *lib.Rng, u *lat.Universe) {
 	var vals []px.Value
 	var vspecs []*XVSpec
 	for i, v := range u.V {
-		if i%4 == 0 {
+		if i%6 == 0 {
 			vals, vspecs = append(vals, v), append(vspecs, &XVSpec{K: "L", L: u.VSpec[i]})
 		}
 	}
